@@ -73,6 +73,9 @@ type worker struct {
 
 	rec  map[string]string // R entry -> normalised answer of the read-write twin ("" = twin not live)
 	live map[string]bool   // entry -> twin live
+
+	expKey   string    // object of the lock bucket whose retention runs out during the run ("" = none)
+	expUntil time.Time // its retain-until date
 }
 
 func skipIAM(rel string) bool { return rel == "iam" }
@@ -195,6 +198,14 @@ func (w *worker) start() error {
 	}
 	if err = w.prepare(env.Client(0)); err != nil {
 		return err
+	}
+	// an object whose retention runs out during the run (part of the template store): reads of it must stay reads
+	w.expUntil = time.Now().Add(2 * time.Second).UTC().Truncate(time.Second).Add(time.Second)
+	if r := env.Client(0).PutObject(w.st.Lock, "c15-expiring-retention", []byte("retention expires while the gateway is read-only"),
+		"X-Amz-Object-Lock-Mode", "GOVERNANCE", "X-Amz-Object-Lock-Retain-Until-Date", w.expUntil.Format(time.RFC3339)); r.OK() {
+		w.expKey = "c15-expiring-retention"
+	} else {
+		w.c.Observe("object with a short retention refused while seeding: " + r.String())
 	}
 	env.GWs[0].Stop()
 	w.tmpl = fx.UniqueDir("c15-" + strings.ReplaceAll(w.lane, "/", "-") + "-template")
@@ -528,6 +539,52 @@ func (w *worker) decorated(entries []*catalog.Entry) {
 	}
 }
 
+// readsOfExpired: every way of reading an object whose retention date has passed, in read-only mode; the store
+// (data, attributes) must be exactly as it was.
+func (w *worker) readsOfExpired(key string) {
+	b := w.st.Lock
+	reads := []struct {
+		name string
+		rq   *s3c.Req
+	}{
+		{"head-object", &s3c.Req{Method: "HEAD", Path: s3c.ObjPath(b, key)}},
+		{"get-object", &s3c.Req{Method: "GET", Path: s3c.ObjPath(b, key)}},
+		{"get-object-attributes", &s3c.Req{Method: "GET", Path: s3c.ObjPath(b, key), Query: "attributes=", Header: s3c.H{{"X-Amz-Object-Attributes", "ETag,ObjectSize,StorageClass"}}}},
+		{"get-object-retention", &s3c.Req{Method: "GET", Path: s3c.ObjPath(b, key), Query: "retention="}},
+		{"get-object-legal-hold", &s3c.Req{Method: "GET", Path: s3c.ObjPath(b, key), Query: "legal-hold="}},
+		{"get-object-tagging", &s3c.Req{Method: "GET", Path: s3c.ObjPath(b, key), Query: "tagging="}},
+		{"list-objects-v2", &s3c.Req{Method: "GET", Path: s3c.BucketPath(b), Query: "list-type=2"}},
+		{"list-object-versions", &s3c.Req{Method: "GET", Path: s3c.BucketPath(b), Query: "versions="}},
+	}
+	for _, rd := range reads {
+		id := w.lane + "/expired-retention/" + rd.name
+		if !w.c.Want(id) {
+			continue
+		}
+		rd.rq.Watchdog = 60 * time.Second
+		bl := w.cl.Build(rd.rq)
+		resp := w.cl.Send(bl, rd.rq)
+		if resp.Err != nil {
+			if !w.gatewayGone(id, resp) {
+				return
+			}
+			continue
+		}
+		w.c.Eval(1)
+		if d := w.diff(false); len(d) > 0 {
+			m := describe(bl, resp)
+			m["object"], m["tree_diff"], m["config"] = "an object whose GOVERNANCE retention date passed while the gateway was read-only", short(d), w.cfg.name
+			w.c.Violation(rd.name+":"+w.caller+":tree-changed:object-with-expired-retention", id, m)
+			if err := w.restore(); err != nil {
+				w.c.Inconclusive("store restore failed: " + err.Error())
+				return
+			}
+			continue
+		}
+		w.c.Distinct(w.cfg.name + "|expired-retention|" + rd.name)
+	}
+}
+
 func clip(s string) string {
 	if len(s) > 1200 {
 		return s[:1200] + "..."
@@ -572,6 +629,12 @@ func (w *worker) runAll() {
 	}
 	w.readonly(entries)
 	w.decorated(entries)
+	if w.expKey != "" {
+		if d := time.Until(w.expUntil.Add(500 * time.Millisecond)); d > 0 {
+			time.Sleep(d)
+		}
+		w.readsOfExpired(w.expKey)
+	}
 	if _, cr := w.env.Dead(); cr != nil {
 		w.c.Observe("read-only gateway died: " + cr.Message + " @ " + cr.TopFrame)
 		w.c.Inconclusive("gateway died")
